@@ -21,9 +21,9 @@ const (
 	kTop akind = iota
 	kConst
 	kNonNil
-	kPtr   // pointer to an abstract cell
-	kObj   // the receiver object whose tracked fields live in the abstract heap
-	kRes   // a tracked resource (deployed plugin)
+	kPtr // pointer to an abstract cell
+	kObj // the receiver object whose tracked fields live in the abstract heap
+	kRes // a tracked resource (deployed plugin)
 	kTuple
 	kClosure
 	kFieldPtr // pointer to a tracked heap field of the receiver
